@@ -348,11 +348,17 @@ def small_check(name, case, rec):
     if ns:
         # drive through `steps` increments; amplitudes chosen such that plastic flow occurs for amp >= 0.01
         scale = case["sy"] / case["E"] if plastic else 1.0
+        # batches that mix yielding and elastic points (onset of yielding, bending): the strains of the first item are a
+        # thousand times smaller throughout the history, it never leaves the elastic range
+        damp = np.ones(int(np.prod(batch)))
+        if plastic and damp.size > 1 and case["oseed"] % 2 == 0:
+            damp[0] = 1e-3
+        damp = damp.reshape(batch)
         for k in range(case["steps"]):
-            Fk = I + (20 * scale if plastic else amp) * (k + 1) / 3 * rng.uniform(-1, 1, (dim, dim) + batch)
+            Fk = I + damp * (20 * scale if plastic else amp) * (k + 1) / 3 * rng.uniform(-1, 1, (dim, dim) + batch)
             sv = np.array(um.gradient([Fk, sv])[-1], dtype=float).copy()
         if plastic:
-            F = I + 20 * scale * rng.uniform(-1, 1, (dim, dim) + batch)
+            F = I + damp * 20 * scale * rng.uniform(-1, 1, (dim, dim) + batch)
             new = np.array(um.gradient([F.copy(), sv.copy()])[-1], dtype=float)
             dalpha = new[0] - sv[0]
             rec.label("plastic-step" if np.all(dalpha > 1e-12) else ("elastic-step" if np.all(dalpha <= 1e-14) else "mixed-items"))
